@@ -33,6 +33,6 @@ def seeded(U, rnd, quick):
     return jobs
 
 def check(run):
-    return refcheck.run_ref(run, "C08", ECOS, (700, 4000), seeded_fn=seeded,
+    return refcheck.run_ref(run, "C08", ECOS, (700, 4000), seeded_fn=seeded, boundary_max=10**18 - 1,  # the property claims digit identifiers "up to 18 digits"
         rule="pairs of in-scope members within blocks of <=350 members of the six TLC-generated universes + seeded versions with 1-6 pre-release identifiers and Go pseudo-versions; judged by SemVer.tla; for the strict semver ecosystem also accepted <=> SvStrictValid on every generated text",
         assumptions=["SemVer.tla transcribes SemVer 2.0.0 sections 2, 9, 10, 11 (audited against node-semver and x/mod/semver by `vcheck audit C08`)"])
